@@ -14,6 +14,7 @@
 //!   c08 <case> <config> <kind> <strategy> = <1|0> # detail          (1 = property holds on the case)
 //!   c08replay <config> = <1|0> # fixed minimal case: table {(1,10),(2,20)}, lookup of 2, public output claimed 999
 //!   lkc <args> = <constraints>                                       (Model/C08Run.v replays check_lookup_constraints)
+//!   clp <args> = <lookup polynomial values|fail>                     (Model/C08Run.v replays compute_lookup_polys)
 use std::io::Write;
 use std::panic::{catch_unwind, AssertUnwindSafe};
 
@@ -354,10 +355,53 @@ fn lkc_cases(w: &mut dyn Write, r: &mut Rng, count: usize) -> usize {
     n
 }
 
+/// `clp`: the real `compute_lookup_polys` on honest witnesses of small lookup circuits with random challenges
+/// (and one challenge alpha that collides with a table value: batch inversion of zero panics).
+fn clp_cases(w: &mut dyn Write, r: &mut Rng, count: usize) -> usize {
+    use plonky2::iop::generator::generate_partial_witness;
+    use plonky2::plonk::prover::{set_lookup_wires, verif_compute_lookup_polys};
+    let mut n = 0;
+    let cfgs = lookup_configs();
+    for ci in 0..count {
+        let (_, cfg) = &cfgs[[0usize, 1, 3, 4][ci % 4]];
+        let p = gen_lookup_program(r, cfg, 2 * ci + 1);
+        if p.tables.iter().map(|t| t.len()).sum::<usize>() > 120 { continue; }
+        let circ = match build_circ(&p, cfg) { Ok(c) => c, Err(_) => continue };
+        let mut part = match generate_partial_witness(circ.inputs_witness(&p), &circ.data.prover_only, &circ.data.common) { Ok(x) => x, Err(_) => continue };
+        if set_lookup_wires(&circ.data.prover_only, &circ.data.common, &mut part).is_err() { continue; }
+        let mw = part.full_witness();
+        let routed = cfg.num_routed_wires;
+        for variant in 0..3 {
+            let mut deltas = [F::from_canonical_u64(r.next_u64() % P), F::from_canonical_u64(r.next_u64() % P),
+                              F::from_canonical_u64(r.next_u64() % P), F::from_canonical_u64(r.next_u64() % P)];
+            if variant == 2 {
+                // alpha = the combination of the first table slot of the first table
+                let lw = &circ.data.prover_only.lookup_rows[0];
+                deltas[2] = mw.get_wire(lw.first_lut_gate, 0) + deltas[0] * mw.get_wire(lw.first_lut_gate, 1);
+            }
+            let res = catch_unwind(AssertUnwindSafe(|| verif_compute_lookup_polys(&mw, &deltas, &circ.data.prover_only, &circ.data.common)));
+            let mut a: Vec<u64> = vec![circ.n as u64, routed as u64, cfg.max_quotient_degree_factor as u64];
+            a.push(circ.data.prover_only.lookup_rows.len() as u64);
+            for lw in &circ.data.prover_only.lookup_rows { a.extend([lw.last_lu_gate as u64, lw.last_lut_gate as u64, lw.first_lut_gate as u64]); }
+            for d in deltas { a.push(d.to_canonical_u64()); }
+            for row in 0..circ.n { for c in 0..routed { a.push(mw.get_wire(row, c).to_canonical_u64()); } }
+            let rs = match res {
+                Ok(polys) => polys.iter().flat_map(|pv| pv.values.iter().map(|x| x.to_canonical_u64().to_string())).collect::<Vec<_>>().join(" "),
+                Err(_) => "fail".to_string(),
+            };
+            writeln!(w, "{}", line("clp", &a, &rs)).unwrap();
+            n += 1;
+        }
+    }
+    n
+}
+
 pub fn run(seed: u64, tier: &str, w: &mut dyn Write) -> usize {
-    let mut r = Rng::new(seed ^ 0xC08);
+    // Rng::new(s) and Rng::new(s + d) are the same splitmix stream shifted by d draws: decorrelate by forking
+    let mut r = Rng::new(seed ^ 0xC08).fork();
     let thorough = tier == "thorough";
     let mut n = lkc_cases(w, &mut r, if thorough { 60 } else { 8 });
+    n += clp_cases(w, &mut r, if thorough { 16 } else { 4 });
     let cfgs = lookup_configs();
     for (cname, cfg) in cfgs.iter() { n += replay_case(w, cname, cfg); }
     n += replay_case(w, "standard", &CircuitConfig::standard_recursion_config());
